@@ -129,7 +129,9 @@ func (in *Instance) QueryView(limit uint64) (q M) {
 	pairSym := func(p types.TokenPair) any {
 		return M{"d": t.DomSym(p.RemoteDomain), "t": b32m(t.BytesSym(p.RemoteToken)), "denom": t.DenomSym(p.LocalToken)}
 	}
-	msgrSym := func(m types.RemoteTokenMessenger) any { return M{"d": t.DomSym(m.DomainId), "addr": b32m(t.BytesSym(m.Address))} }
+	msgrSym := func(m types.RemoteTokenMessenger) any {
+		return M{"d": t.DomSym(m.DomainId), "addr": b32m(t.BytesSym(m.Address))}
+	}
 	usedSym := func(u types.Nonce) any { return M{"d": t.DomSym(u.SourceDomain), "n": t.NonceSym(u.Nonce)} }
 	total := func(p *query.PageResponse) uint64 {
 		if p == nil {
